@@ -43,7 +43,8 @@ FLOORS = {'*': {**{f'{k}:{w}': 10 for k in ('openapi', 'openapi30', 'openrpc') f
                 'context:not-first': 20, 'context:positional': 10, 'subsets-dispatched': 3000, 'accepted': 300, 'refused': 1000,
                 'methods': 100, 'twin-registration': 30, 'exclusion:by-name': 30, 'exclusion:default-none': 30, 'exclusion:by-annotation': 30,
                 'validator:base': 100, 'validator:pydantic': 30, 'validator:pydantic:extra-ignore': 30, 'validator:pydantic:extra-allow:as-is': 30,
-                'view:context-name-equals-a-parameter-name': 30, 'style:wrapped': 30, 'style:view-static': 30, 'style:view-class': 30, 'style:view-static-inherited': 30, 'style:view-class-inherited': 30, 'signature:variadic': 30, 'signature:nullable': 30}}
+                'view:context-name-equals-a-parameter-name': 30, 'style:wrapped': 30, 'style:view-static': 30, 'style:view-class': 30, 'style:view-static-inherited': 30, 'style:view-class-inherited': 30, 'signature:variadic': 30, 'signature:nullable': 30, 'signature:field-default': 30,
+                'signature:extractor:serialization-defaults-required': 100}}
 
 
 def render(params, ctx_at, ctx_name, skip, as_view, first='self', lead=None, fname='f', extras=None):
@@ -73,6 +74,10 @@ def render(params, ctx_at, ctx_name, skip, as_view, first='self', lead=None, fna
             seen_default = True
         # 'nullable': every second REQUIRED parameter is annotated Optional[int]: nullable is not the same as "may be omitted"
         ann = 'typing.Optional[int]' if (extras.get('nullable') and not dflt and idx % 2 == 0) else 'int'
+        if extras.get('field-default') and not dflt and name != ctx_name:
+            # a REQUIRED parameter described through pydantic.Field: the python default is a FieldInfo that carries no default value
+            parts.append(f"{name}: {ann} = pydantic.Field(description='described', ge=0)")
+            continue          # (every later parameter has a python default too: the signature stays legal)
         parts.append(name + (f": {ann} = 0" if dflt else f': {ann}'))
     if extras.get('variadic') and not star:
         parts.append('*rest')
@@ -131,6 +136,8 @@ def run_method(ctx, params, ctx_at, positional, skip, style, validator='base', e
     extras = dict(extras or {})
     if validator != 'base':
         extras['variadic'] = False      # *args under the pydantic validator is the known finding D4 (C04), not a documentation matter
+    if validator == 'base' or ctx_at not in (None, 0) or style not in ('def', 'view') or positional:
+        extras['field-default'] = False     # pydantic.Field defaults mean something to the pydantic validator only
     for k_, v_ in extras.items():
         if v_:
             ctx.hit('signature:' + k_)
@@ -153,8 +160,9 @@ def run_method(ctx, params, ctx_at, positional, skip, style, validator='base', e
     import functools
     import inspect
     import typing
+    import pydantic
     ns = {'ViewMixin': pjrpc.server.ViewMixin, '__name__': 'vmon_c17_programs', 'Injected': Injected, 'functools': functools,
-          'inspect': inspect, 'typing': typing}
+          'inspect': inspect, 'typing': typing, 'pydantic': pydantic}
     if skip is True:
         skip = 'by-name'
     pred = {None: None, False: None,
@@ -254,7 +262,9 @@ def run_method(ctx, params, ctx_at, positional, skip, style, validator='base', e
         docs_ = {}
         failed = False
         try:
-            ex = x_pd.PydanticSchemaExtractor(exclude_param=pred)
+            # (a pydantic model option that concerns the SERIALIZATION schema of models: no parameter becomes required by it)
+            ex = x_pd.PydanticSchemaExtractor(exclude_param=pred, **({'json_schema_serialization_defaults_required': True}
+                                                                       if extras.get('extractor:serialization-defaults-required') else {}))
             if kind == 'openapi':
                 spec = openapi.OpenAPI(info=openapi.Info(title='t', version='1'), schema_extractor=ex)
             elif kind == 'openapi30':
@@ -386,7 +396,8 @@ def gen(ctx):
                         continue
                     if not full and k % 3 and not (ctx_at not in (None, 0)):
                         continue
-                    ex = {'variadic': (k // 7) % 4 == 0 and style in ('def', 'view'), 'nullable': k % 4 == 1}
+                    ex = {'variadic': (k // 7) % 4 == 0 and style in ('def', 'view'), 'nullable': k % 4 == 1,
+                          'field-default': (k // 3) % 3 == 0, 'extractor:serialization-defaults-required': (k // 5) % 4 == 0}
                     yield 'method', dict(params=ps, ctx_at=ctx_at, positional=positional, skip=skip, style=style,
                                          validator=VALIDATORS[(k // 2) % 4] if k % 3 == 0 else 'base', extras=ex)
 
